@@ -57,14 +57,15 @@ Print Assumptions c09_parent_based_follows_parent.
     root or not: the span id is the generator's; the trace id is the parent's if it
     has one, else the generator's; sampled flag <=> RecordAndSample, the other flag
     bits are the parent's; recording <=> not Drop; exported <=> sampled; the
-    tracestate is the one the sampler answered; never remote.  The sampler was asked
+    tracestate is the one the sampler answered, which for every composition of the SDK's own
+    samplers ([stock s]) is the parent's, whatever the decision - dropped spans included; never remote.  The sampler was asked
     with the effective parent and the span's trace id; NewIDs was called iff the
     parent has no trace id. *)
 Theorem c09_flags_recording_export : forall s g parent (newroot : bool),
   flags parent < 256 ->
   let psc := if newroot then zero_sc else parent in
   let sp := new_span s g parent newroot in
-  start_ok (octx_of psc) (fst g) (snd g) (code (dec (sres sp))) (rts (sres sp))
+  start_ok (stock s) (octx_of psc) (fst g) (snd g) (code (dec (sres sp))) (rts (sres sp))
            (octx_of (sc sp)) (recording sp) (exported sp) = true /\
   sres sp = should_sample s psc (tid (sc sp)) /\
   asked_ids sp = zero (tid psc).
